@@ -1,0 +1,63 @@
+//go:build verif
+
+// Contracts for govc (see /verif/DESIGN.md). Comment-only file: no executable code.
+
+package consensus
+
+// ---------------------------------------------------------------------------
+// C06: double-sign evidence is accepted only for genuine conflicts
+// ---------------------------------------------------------------------------
+
+//@ property C06
+//@ smt all (declare-fun vote_nid (Int) W32)
+//@ smt all (declare-fun sb_hash (Int) BSeq)
+//@ smt all (declare-fun sb_signer (Int) BSeq)
+//@ smt all (declare-fun sb_haskey (Int) Bool)
+
+//@ spec nidMatch(a, b) = a == 0 || b == 0 || a == b
+//@ spec addrID(a) = bseq(arr(a), 1, 20)
+
+//@ func matchNID(nid1, nid2) (r)
+//@   pure
+//@   ensures r == nidMatch(nid1, nid2)
+
+// Abstractions of the signed-message helpers. The network id, the signed hash and the
+// signer of a message are uninterpreted functions of the message object; the bodies
+// (reflective codec, SHA3, ECDSA recovery) are not verified here.
+//@ func (v *voteBase) NID() (nid, err)
+//@   trusted
+//@   pure
+//@   ensures nid == vote_nid(owner(v))
+
+//@ func (s *signedBase) hash() (h)
+//@   trusted
+//@   modifies s._hash
+//@   ensures seq(h) == sb_hash(owner(s)) && len(h) == 32
+
+//@ func (s *signedBase) address() (a)
+//@   trusted
+//@   modifies s._hash, s._publicKey
+//@   ensures sb_haskey(owner(s)) ==> a != nil
+//@   ensures a != nil ==> addrID(a) == sb_signer(owner(s))
+
+//@ spec dsvOK(v) = v != nil ==> (v.msg != nil && sb_haskey(ref(v.msg)))
+//@ spec dsvOther(o) = as(ptr_dsVote, o)
+//@ spec voteConflict(a, b) = nidMatch(vote_nid(ref(a)), vote_nid(ref(b))) && a.Type == b.Type && a.Height == b.Height && a.Round == b.Round && sb_signer(ref(a)) == sb_signer(ref(b)) && sb_hash(ref(a)) != sb_hash(ref(b))
+
+//@ func (v *dsVote) IsConflictWith(other) (r)
+//@   requires dsvOK(v)
+//@   requires typeof(other) == typeid(ptr_dsVote) ==> dsvOK(dsvOther(other))
+//@   modifies v.msg.signedBase, dsvOther(other).msg.signedBase
+//@   ensures [onlyif] r ==> typeof(other) == typeid(ptr_dsVote) && v != nil && dsvOther(other) != nil && voteConflict(v.msg, dsvOther(other).msg)
+//@   ensures [if] typeof(other) == typeid(ptr_dsVote) && v != nil && dsvOther(other) != nil && voteConflict(v.msg, dsvOther(other).msg) ==> r
+
+//@ spec dspOK(v) = v != nil ==> (v.msg != nil && sb_haskey(ref(v.msg)))
+//@ spec dspOther(o) = as(ptr_dsProposal, o)
+//@ spec propConflict(a, b) = nidMatch(a.NID, b.NID) && a.Height == b.Height && a.Round == b.Round && sb_signer(ref(a)) == sb_signer(ref(b)) && sb_hash(ref(a)) != sb_hash(ref(b))
+
+//@ func (d *dsProposal) IsConflictWith(other) (r)
+//@   requires dspOK(d)
+//@   requires typeof(other) == typeid(ptr_dsProposal) ==> dspOK(dspOther(other))
+//@   modifies d.msg.signedBase, dspOther(other).msg.signedBase
+//@   ensures [onlyif] r ==> typeof(other) == typeid(ptr_dsProposal) && d != nil && dspOther(other) != nil && propConflict(d.msg, dspOther(other).msg)
+//@   ensures [if] typeof(other) == typeid(ptr_dsProposal) && d != nil && dspOther(other) != nil && propConflict(d.msg, dspOther(other).msg) ==> r
